@@ -126,6 +126,13 @@ def stream_hint_spans(ctx, impl, drv):
     for fs in ("\x1c", "\x1f"):  # the separators str.strip() treats as white space and the regex \\s does not
         srcs += [fs + " # paroxython: foo\nx = 1 # paroxython: bar", "x = 1 # paroxython: bar\n" + fs + "# paroxython: foo",
                  fs + "x = 1 # paroxython: bar", "y\n" + fs + " # paroxython: a... ...a\nx = 1 # paroxython: bar"]
+    # hint comments glued to the code with hints alone on a line (F45); empty hint comments at the end of a line or alone (F46)
+    for glued in ("x = 1#paroxython:a", "x = 1# paroxython : a... ...a", "if x:#Paroxython:-a"):
+        srcs += [glued + "\n# paroxython: b\ny = 2\n", "# paroxython: b\n" + glued + "\n    y = 2", "y = 2\n" + glued + "\n    # paroxython: b",
+                 glued + "\n# paroxython: b"]
+    for empty in ("# paroxython:", "#paroxython:", "# paroxython:   ", "# Paroxython :"):
+        srcs += ["x = 1\ny = 2 " + empty + "\n", "x = 1\ny = 2 " + empty, "x = 1 " + empty + "\ny = 2 # paroxython: a", empty + "\nx = 1 # paroxython: a",
+                 "x = 1 # paroxython: a\n" + empty, "x = 1" + empty + "\n# paroxython: b\ny = 2" + empty]
     srcs = [s for s in dict.fromkeys(srcs) if impl.admissible(s)]
     res = drv.call("c02.get_program", srcs=srcs)["r"]
     bad_corr = 0
